@@ -364,7 +364,9 @@ class Life:
                 led["sent"] = True
             prev = led["prev"]
             st = sname(o.status)
-            if "C04" in self.en and kind == "LIMIT" and st != "VIOLATION":
+            # an order that was refused before it was ever sent is outside; one that WAS sent stays inside whatever
+            # its status says later
+            if "C04" in self.en and kind == "LIMIT" and (st != "VIOLATION" or led["sent"]):
                 size = o.order_type.size
                 matched, canc, laps, void, rem, nfr = cur
                 self.c("clause:C04.a")
